@@ -291,3 +291,49 @@ func VH_C06_dups() {
 		vCover("distinct-items")
 	}
 }
+
+// prep may hand back the very same slice object on every run (a work list kept by the caller) with
+// its elements rewritten in between: the run processes what the slice holds NOW
+func VH_C06_rerunSameSlice() {
+	vUnwind(24)
+	c := vChoice("concurrency", 2)
+	typed := vNondet[bool]("typedSlice")
+	workA := []any{100, 101}
+	workT := []int{100, 101}
+	var seenItems, seenRes [2]int
+	posts := 0
+	b := NewBatchNode().WithBatchConcurrency(c)
+	WithPrepFuncAny(func(ctx context.Context, s *SharedStore) (any, error) {
+		if typed {
+			return workT, nil
+		}
+		return workA, nil
+	}).apply(b.CustomNode)
+	b.WithExecFunc(func(ctx context.Context, item Result) (Result, error) {
+		v, _ := item.Value().(int)
+		return NewResult(v + 1000), nil
+	}).WithPostFunc(func(ctx context.Context, s *SharedStore, items, results []Result) (Action, error) {
+		vMon(func() {
+			posts++
+			for i := 0; i < 2 && i < len(items) && i < len(results); i++ {
+				seenItems[i], _ = items[i].Value().(int)
+				seenRes[i], _ = results[i].Value().(int)
+			}
+		})
+		return "done", nil
+	})
+	_, err1 := Run(vNewCtx(), b, NewSharedStore())
+	vAssume(err1 == nil)
+	// rewrite the elements in place (swap and change)
+	workA[0], workA[1] = 201, 100
+	workT[0], workT[1] = 201, 100
+	posts = 0
+	_, err := Run(vNewCtx(), b, NewSharedStore())
+	if err != nil {
+		return
+	}
+	vAssert(posts == 1, "post-called-exactly-once")
+	vAssert(seenItems[0] == 201 && seenItems[1] == 100, "items-in-the-order-prep-produced-them")
+	vAssert(seenRes[0] == 1201 && seenRes[1] == 1100, "slot-i-holds-the-value-of-item-i")
+	vCover("same-slice-rewritten")
+}
